@@ -485,7 +485,6 @@ fn model(kind: &str, f: &[Option<&Value>; 10], fs: &[(String, FileEventKind, &'s
 				Some(n) if i32::try_from(n).is_ok() => "i32",
 				Some(_) => "wide",
 			};
-			let class = format!("{}/code-{code_class}/{}", d.unwrap_or("no-disposition"), presence("signal", sg.is_some()));
 			let (end, uses_code, uses_signal): (Option<Tag>, bool, bool) = match d {
 				None | Some("unknown") => (Some(Tag::ProcessCompletion(None)), false, false),
 				Some("success") => (Some(Tag::ProcessCompletion(Some(ProcessEnd::Success))), false, false),
@@ -507,6 +506,19 @@ fn model(kind: &str, f: &[Option<&Value>; 10], fs: &[(String, FileEventKind, &'s
 			// a member this disposition has no use for may be read as a contradiction;
 			// a completion object without a disposition is lossy (snapshot pins "unknown")
 			let stray = (c.is_some() && !uses_code) || (signal.is_some() && !uses_signal);
+			// input class: the disposition and the state of the member it depends on
+			let mut class = d.unwrap_or("no-disposition").to_string();
+			if uses_code {
+				class.push_str("/code-");
+				class.push_str(code_class);
+			}
+			if uses_signal {
+				class.push('/');
+				class.push_str(&presence("signal", sg.is_some()));
+			}
+			if stray {
+				class.push_str("/stray-member");
+			}
 			Expect { main: end.unwrap_or(Tag::Unknown), alt_unknown: stray || d.is_none(), fs_loose: None, class }
 		}
 		_ => exact(Tag::Unknown, "any".into()),
@@ -537,10 +549,18 @@ fn judge(kind: &str, exp: &Expect, got: &Tag) -> Option<&'static str> {
 fn eval_decode(kind: &str, f: &[Option<&Value>; 10], text: &str, fs: &[(String, FileEventKind, &'static str)]) -> (Vec<(String, String)>, Option<Tag>) {
 	let exp = model(kind, f, fs);
 	match serde_json::from_str::<Tag>(text) {
-		Err(e) => (vec![(format!("C16/decode/{kind}/{}/rejected", exp.class), format!("{text} fails to parse: {e}; the statement wants {:?}", exp.main))], None),
+		// one key per kind for the two kind-level failures, per input class otherwise
+		Err(e) => (vec![(format!("C16/decode/{kind}/rejected"), format!("{text} fails to parse: {e}; the statement wants {:?}", exp.main))], None),
 		Ok(got) => {
 			let v = judge(kind, &exp, &got)
-				.map(|what| (format!("C16/decode/{kind}/{}/{what}", exp.class), format!("{text} parses to {got:?}; the reference decoder gives {:?}", exp.main)))
+				.map(|what| {
+					let key = if what == "mistaken-for-another-kind" {
+						format!("C16/decode/{kind}/mistaken-for-{}", got.discriminant_name())
+					} else {
+						format!("C16/decode/{kind}/{}/{what}", exp.class)
+					};
+					(key, format!("{text} parses to {got:?}; the reference decoder gives {:?}", exp.main))
+				})
 				.into_iter()
 				.collect();
 			(v, Some(got))
